@@ -216,6 +216,9 @@ pub fn label_config(cfg: &BuilderConfig, o: &mut Outcome) {
     for d in &cfg.deps {
         o.label(format!("dep-kind-{}", d.kind));
     }
+    if cfg.deps.last().is_some_and(|d| d.name == "zz-after") {
+        o.label("dependency-also-generated-by-the-builder");
+    }
     if cfg.deps.windows(2).any(|w| w[0].kind == w[1].kind && w[0].name == w[1].name) {
         o.label("same-name-dependencies-in-a-row");
     }
@@ -258,15 +261,33 @@ impl Property for C06 {
         ]
     }
     fn required_labels(&self, _t: Tier) -> Vec<&'static str> {
-        vec!["zoned-changelog-times", "long-name", "setters-after-files", "same-name-dependencies-in-a-row", "root-level-file", "dot-style-destination", "inherited-mode", "comp-none", "comp-gzip", "comp-zstd", "comp-xz", "comp-bzip2", "signed", "scriptlet-verify", "scriptlet-pre_install", "dep-kind-0", "dep-kind-7", "packager-set", "group-set", "file-with-caps"]
+        vec!["dependency-also-generated-by-the-builder", "zoned-changelog-times", "long-name", "setters-after-files", "same-name-dependencies-in-a-row", "root-level-file", "dot-style-destination", "inherited-mode", "comp-none", "comp-gzip", "comp-zstd", "comp-xz", "comp-bzip2", "signed", "scriptlet-verify", "scriptlet-pre_install", "dep-kind-0", "dep-kind-7", "packager-set", "group-set", "file-with-caps"]
     }
     fn phases(&self, tier: Tier) -> Vec<Phase<C06Case>> {
         vec![Phase::Random {
             name: "configurations",
             cases: tier.pick(10_000, 300_000),
             strat: Arc::new(|| {
-                config_any_reuse(CfgParams { max_files: 8, sizes: size_small(), comp: comp_mixed(), sign_prob: 0.15, file_kinds: true, force_large_prob: 0.0, rich_meta: true })
-                    .prop_map(|mut c| {
+                (config_any_reuse(CfgParams { max_files: 8, sizes: size_small(), comp: comp_mixed(), sign_prob: 0.15, file_kinds: true, force_large_prob: 0.0, rich_meta: true }), proptest::prelude::any::<u8>())
+                    .prop_map(|(mut c, mirror)| {
+                        // now and then the caller supplies, ahead of another dependency of the same
+                        // kind, exactly what the builder also generates by itself (self-provides,
+                        // rpmlib() requirements, user()/group() recommendations)
+                        use crate::gen::builder::DepSpec;
+                        let d = |kind: u8, ctor: u8, name: &str, version: &str| DepSpec { kind, ctor, name: name.to_string(), version: version.to_string() };
+                        let pair = match mirror % 16 {
+                            0 => Some((d(1, 1, &c.name, &c.version), d(1, 0, "zz-after", ""))),
+                            1 => Some((d(1, 1, &format!("{}({})", c.name, c.arch), &c.version), d(1, 0, "zz-after", ""))),
+                            2 => Some((d(0, 6, "CompressedFileNames", "3.0.4-1"), d(0, 0, "zz-after", ""))),
+                            3 => Some((d(0, 6, ["FileDigests", "PayloadFilesHavePrefix", "PayloadIsZstd", "PayloadIsXz", "PayloadIsBzip2", "FileCaps"][(mirror / 16) as usize % 6], ["4.6.0-1", "4.0-1", "5.4.18-1", "5.2-1", "3.0.5-1", "4.6.1-1"][(mirror / 16) as usize % 6]), d(0, 0, "zz-after", ""))),
+                            4 => c.files.iter().find_map(|f| f.user.clone()).map(|u: String| (d(4, 8, u.as_str(), ""), d(4, 0, "zz-after", ""))),
+                            5 => c.files.iter().find_map(|f| f.group.clone()).map(|g: String| (d(4, 9, g.as_str(), ""), d(4, 0, "zz-after", ""))),
+                            _ => None,
+                        };
+                        if let Some((same_as_generated, after)) = pair {
+                            c.deps.insert(0, same_as_generated);
+                            c.deps.push(after);
+                        }
                         // the protected RSA key is slow; keep it rare
                         if c.signer == Some(1) && c.files.len() % 4 != 0 {
                             c.signer = Some(2);
